@@ -19,7 +19,7 @@ const char *target_name = "timers";
 
 enum { L_CROSS128_UP, L_CROSS128_DOWN, L_CROSS16K_UP, L_CROSS16K_DOWN, L_INTERIOR_REMOVAL, L_REMOVE_ROOT, L_REMOVE_LAST, L_EQUAL_KEYS,
        L_UNREG_IN_EXPIRED_BATCH, L_BULK_REG, L_BULK_UNREG, L_REG_FROM_HANDLER, L_PAST_EXPIRY, L_EMPTY_THEN_REFILL, L_M0, L_M1, L_M2, L_M3,
-       L_FAR_FUTURE, L_EXTREME_VALUE };
+       L_FAR_FUTURE, L_EXTREME_VALUE, L_SAME_STRUCT };
 
 #define MAXT 60000
 typedef __int128 xkey;             /* expiry in ns; 128 bits so that any tv_sec value can be modelled */
@@ -95,14 +95,14 @@ static void pop_change(int delta)
 	if (before == 0 && delta > 0 && maxpop > 0 && ntm > 1) vz_label(L_EMPTY_THEN_REFILL);
 }
 
+static struct iv_timer *stash[64]; static int nstash; static unsigned stash_tick;
 static int do_register(xkey expires)
 {
 	if (ntm >= MAXT) return -1;
 	int i = ntm++;
 	struct tmr *t = &tms[i];
-	t->iv = malloc(sizeof *t->iv);
-	memset(t->iv, 0xA5, sizeof *t->iv);
-	IV_TIMER_INIT(t->iv);
+	if (nstash && (++stash_tick & 1)) { t->iv = stash[--nstash]; vz_label(L_SAME_STRUCT); }     /* a struct that was registered before, as it was left: initialised once is enough */
+	else { t->iv = malloc(sizeof *t->iv); memset(t->iv, 0xA5, sizeof *t->iv); IV_TIMER_INIT(t->iv); }
 	t->expires = expires; t->gen = 1;
 	t->iv->expires.tv_sec = (time_t)(expires / VK_NS); t->iv->expires.tv_nsec = (long)(expires % VK_NS);
 	if (t->iv->expires.tv_nsec < 0) { t->iv->expires.tv_sec--; t->iv->expires.tv_nsec += VK_NS; }
@@ -120,7 +120,9 @@ static void forget(int i)
 	struct tmr *t = &tms[i];
 	t->registered = 0; t->gen++;
 	int pos = regpos[i]; regd[pos] = regd[--nregd]; regpos[regd[pos]] = pos;
-	memset(t->iv, 0x5A, sizeof *t->iv); free(t->iv); t->iv = NULL;
+	if (nstash < 64 && (++stash_tick % 3) == 0) stash[nstash++] = t->iv;      /* kept by the caller for a later registration */
+	else { memset(t->iv, 0x5A, sizeof *t->iv); free(t->iv); }
+	t->iv = NULL;
 	pop_change(-1);
 }
 static void do_unregister(int i)
